@@ -571,8 +571,14 @@ def run(ctx):
     _t6 = _t.time()
     n6, f6 = c04_canary2.run(ctx, core_configs() if quick else configs("quick"))
     ctx.log(f"part canaries2 {_t.time() - _t6:.1f}s")
-    total = n1 + n2 + n3 + n4 + n5 + n6
-    found = f1 or f2 or f3 or f4 or f5 or f6
+    n7, f7 = 0, False
+    if not (f1 or f2 or f3 or f4 or f5 or f6):
+        from vlib import c04_copy
+        _t7 = _t.time()
+        n7, f7 = c04_copy.run(ctx, core_configs() if quick else configs("quick"), 3 if quick else None)
+        ctx.log(f"part copy canaries {_t.time() - _t7:.1f}s")
+    total = n1 + n2 + n3 + n4 + n5 + n6 + n7
+    found = f1 or f2 or f3 or f4 or f5 or f6 or f7
     if (gen_err is not None or not b["ok"]) and not found:
         if gen_err is not None:
             ctx.violation("translator-rejected", "cannot export the bounds-check templates: " + gen_err, {"error": gen_err})
@@ -582,7 +588,8 @@ def run(ctx):
     ctx.corr["evaluations"] = total
     ctx.corr["distinct_nontrivial"] = total
     ctx.corr["rule"] = ("distinct reserved-set/size pairs + distinct legacy op sequences + canary calls (config x index type x container x "
-                        "location x index value); every case exercises an allocation or a subscript")
+                        "location x index value) + whole-value copies (config x type x source location x destination location x length); every case "
+                        "exercises an allocation, a subscript or a copy")
     ctx.trusted += ["Coq 8.16.1 kernel + vm_compute", "coq/C03/LIR.v evaluator + Base/Word256.v",
                     "tools/vlib/c04_export.py + c03_export.lir_term (IRnode -> LIR; the DynArray length load is replaced by the variable `len`)",
                     "hand models coq/C04/AllocModel.v (validated by exact-output differential)", "pyrevm"]
